@@ -254,6 +254,11 @@ func (m *wdMon) payoutFor(ids []uint64, perturb string) (*wire.MsgTx, uint64, []
 	if perturb == "fee-above-limit" {
 		fee = minPrice*size + 1
 	}
+	if perturb == "padded-tx" || perturb == "witness-serialization" {
+		// above the limit for the transaction's real size, within it for the length of the submitted field once 200 bytes
+		// of padding or witness data are counted in
+		fee = minPrice*size + minPrice*100 + 1
+	}
 	return tx, fee, vals
 }
 
@@ -269,6 +274,12 @@ func (m *wdMon) judgePayout(kind string, ids []uint64, raw []byte, fee uint64, n
 	if err := tx.DeserializeNoWitness(bytes.NewReader(raw)); err != nil {
 		bad("undecodable transaction")
 		return
+	}
+	// the fee rate is a rate per byte of the Bitcoin transaction, not of the message field: bytes behind the transaction
+	// (or witness data) do not make it cheaper
+	size := tx.SerializeSizeStripped()
+	if size != len(raw) {
+		bad(fmt.Sprintf("the transaction field has %d bytes, the transaction it carries %d", len(raw), size))
 	}
 	if len(tx.TxOut) != len(ids) && len(tx.TxOut) != len(ids)+1 {
 		bad(fmt.Sprintf("%d outputs for %d withdrawals", len(tx.TxOut), len(ids)))
@@ -297,8 +308,8 @@ func (m *wdMon) judgePayout(kind string, ids []uint64, raw []byte, fee uint64, n
 			bad(fmt.Sprintf("output %d pays %d, more than the requested %d", k, o.Value, x.Amount))
 		}
 		// fee rate: fee/size <= max price, in exact integers
-		if new(big.Int).SetUint64(fee).Cmp(new(big.Int).Mul(new(big.Int).SetUint64(x.MaxPrice), big.NewInt(int64(len(raw))))) > 0 {
-			bad(fmt.Sprintf("fee %d over %d bytes exceeds the maximum rate %d of id %d", fee, len(raw), x.MaxPrice, id))
+		if new(big.Int).SetUint64(fee).Cmp(new(big.Int).Mul(new(big.Int).SetUint64(x.MaxPrice), big.NewInt(int64(size)))) > 0 {
+			bad(fmt.Sprintf("fee %d over %d bytes exceeds the maximum rate %d of id %d", fee, size, x.MaxPrice, id))
 		}
 	}
 	if len(tx.TxOut) == len(ids)+1 && !bytes.Equal(tx.TxOut[len(ids)].PkScript, world.SystemScript(b.curKey)) {
@@ -307,13 +318,33 @@ func (m *wdMon) judgePayout(kind string, ids []uint64, raw []byte, fee uint64, n
 	return
 }
 
+// rawFor renders the transaction field of a process / fee-bump message: the canonical serialisation without witness
+// data, or (perturbed) that followed by 200 zero bytes, or the witness serialisation with a 200-byte witness item -
+// the same Bitcoin transaction (same txid) in a longer field.
+func rawFor(tx *wire.MsgTx, perturb string) []byte {
+	switch perturb {
+	case "padded-tx":
+		return append(append([]byte{}, world.NoWitness(tx)...), make([]byte, 200)...)
+	case "witness-serialization":
+		cp := tx.Copy()
+		for _, in := range cp.TxIn {
+			in.Witness = wire.TxWitness{make([]byte, 200)}
+		}
+		var buf bytes.Buffer
+		if cp.Serialize(&buf) == nil {
+			return buf.Bytes()
+		}
+	}
+	return world.NoWitness(tx)
+}
+
 func (m *wdMon) processOp(ids []uint64, perturb string) *relOp {
 	b := m.b
 	if b.votedUsed || len(ids) == 0 {
 		return nil
 	}
 	tx, fee, vals := m.payoutFor(ids, perturb)
-	raw := world.NoWitness(tx)
+	raw := rawFor(tx, perturb)
 	msg := &bitcointypes.MsgProcessWithdrawal{Proposer: b.group.Proposer.AddrStr, Id: ids, NoWitnessTx: raw, TxFee: fee}
 	v, err := b.lh.ch.QuorumVote(b.group, msg)
 	if err != nil {
@@ -357,8 +388,8 @@ func (m *wdMon) replaceOp(p *procM, perturb string) *relOp {
 		return nil
 	}
 	last := p.Cands[len(p.Cands)-1]
-	tx, fee, vals := m.payoutFor(p.Ids, map[string]string{"wrong-script": "wrong-script", "value+1": "value+1", "two-extra-outputs": "two-extra-outputs", "change-to-foreign-key": "change-to-foreign-key", "change-to-old-key": "change-to-old-key", "change-lookalike-version": "change-lookalike-version", "change-lookalike-push": "change-lookalike-push", "swap-outputs": "swap-outputs", "fee-above-limit": "fee-above-limit"}[perturb])
-	raw := world.NoWitness(tx)
+	tx, fee, vals := m.payoutFor(p.Ids, map[string]string{"wrong-script": "wrong-script", "value+1": "value+1", "two-extra-outputs": "two-extra-outputs", "change-to-foreign-key": "change-to-foreign-key", "change-to-old-key": "change-to-old-key", "change-lookalike-version": "change-lookalike-version", "change-lookalike-push": "change-lookalike-push", "swap-outputs": "swap-outputs", "fee-above-limit": "fee-above-limit", "padded-tx": "padded-tx", "witness-serialization": "witness-serialization"}[perturb])
+	raw := rawFor(tx, perturb)
 	// strictly higher fee within the users' limits, unless perturbed
 	switch perturb {
 	case "fee-equal":
@@ -579,7 +610,7 @@ func (m *wdMon) observe() {
 	m.acts = map[uint64]string{}
 }
 
-var processPerturbs = []string{"value+1", "wrong-script", "fee-above-limit", "two-extra-outputs", "change-to-foreign-key", "change-to-old-key", "swap-outputs", "change-lookalike-version", "change-lookalike-push"}
+var processPerturbs = []string{"value+1", "wrong-script", "fee-above-limit", "padded-tx", "witness-serialization", "two-extra-outputs", "change-to-foreign-key", "change-to-old-key", "swap-outputs", "change-lookalike-version", "change-lookalike-push"}
 var finalizePerturbs = []string{"unvoted-txid", "txid-of-a-filler", "filler-under-alias", "proof-bitflip", "wrong-header", "forged-header-root", "unvoted-height", "other-pid", "unmined-candidate"}
 
 // c05Gen queues one block's worth of user requests, relayer operations and Bitcoin activity for withdrawals.
@@ -656,7 +687,7 @@ func c05Gen(m *wdMon, blk, nBlocks, idx int, addrPool []addrCase) {
 		p := open[r.Intn(len(open))]
 		perturb := ""
 		if r.Intn(2) == 0 {
-			rp := []string{"fee-equal", "fee-lower", "same-tx", "wrong-script", "value+1", "two-extra-outputs", "change-to-foreign-key", "change-to-old-key", "swap-outputs", "fee-above-limit", "change-lookalike-version", "change-lookalike-push"}
+			rp := []string{"fee-equal", "fee-lower", "same-tx", "wrong-script", "value+1", "two-extra-outputs", "change-to-foreign-key", "change-to-old-key", "swap-outputs", "fee-above-limit", "padded-tx", "witness-serialization", "change-lookalike-version", "change-lookalike-push"}
 			perturb = rp[r.Intn(len(rp))]
 		}
 		if op := m.replaceOp(p, perturb); op != nil {
